@@ -126,11 +126,10 @@ Definition EEnvEmptyDomain := 42.
 Definition EEnvEmptyType := 43.
 
 Section Scheme.
-  Variables privkey pubkey sigt peerid : Type.
+  Variables privkey pubkey sigt : Type.
   Variable pub : privkey -> pubkey.
   Variable sign : privkey -> bytes -> sigt.
   Variable verify : pubkey -> bytes -> sigt -> bool.
-  Variable peer_id : pubkey -> peerid.
 
   (* the idealisations, as named propositions (never assumed globally) *)
   Definition VerifySign : Prop := forall k m, verify (pub k) m (sign k m) = true.
@@ -139,7 +138,6 @@ Section Scheme.
   Definition SignInjective : Prop :=
     forall k m k' m', sign k m = sign k' m' -> k = k' /\ m = m'.
   Definition PubInjective : Prop := forall k k', pub k = pub k' -> k = k'.
-  Definition PeerIdInjective : Prop := forall a b, peer_id a = peer_id b -> a = b.
 
   (* exact characterisation of verification that the first four give *)
   Lemma verify_iff :
@@ -282,6 +280,30 @@ Section Scheme.
     Qed.
   End Altered.
 
+  (* e' is e with exactly one of the four fields replaced by a different value *)
+  Definition altered_one_field (e e' : envelope) : Prop :=
+    (e_key e' <> e_key e /\ e_ty e' = e_ty e /\ e_payload e' = e_payload e /\ e_sig e' = e_sig e) \/
+    (e_key e' = e_key e /\ e_ty e' <> e_ty e /\ e_payload e' = e_payload e /\ e_sig e' = e_sig e) \/
+    (e_key e' = e_key e /\ e_ty e' = e_ty e /\ e_payload e' <> e_payload e /\ e_sig e' = e_sig e) \/
+    (e_key e' = e_key e /\ e_ty e' = e_ty e /\ e_payload e' = e_payload e /\ e_sig e' <> e_sig e).
+
+  (* no single-field alteration of a sealed envelope validates *)
+  Lemma validate_altered_one_field :
+    VerifySign -> VerifyUnique -> SignInjective -> PubInjective ->
+    forall dom ty pl k e e',
+      short dom -> short ty -> short pl ->
+      seal dom ty pl k = Ok e -> altered_one_field e e' -> env_short e' ->
+      validate dom e' = false.
+  Proof.
+    intros VS VU SI PI dom ty pl k e e' Sd St Sp Hs Ha [St' Sp'].
+    apply seal_inv in Hs as (-> & _ & _). destruct e' as [pk' ty' pl' s']. unfold altered_one_field in Ha. cbn in *.
+    destruct Ha as [(H1 & -> & -> & ->)|[(-> & H2 & -> & ->)|[(-> & -> & H3 & ->)|(-> & -> & -> & H4)]]].
+    - apply validate_altered_key; auto.
+    - apply validate_altered_type; auto.
+    - apply validate_altered_payload; auto.
+    - apply validate_altered_sig; auto.
+  Qed.
+
   Lemma consume_ok_iff w dom e :
     consume w dom = Ok e <-> w = Some e /\ validate dom e = true.
   Proof.
@@ -295,6 +317,11 @@ Section Scheme.
 
   Lemma consume_not_panic w dom : is_panic (consume w dom) = false.
   Proof. unfold consume. destruct w; [destruct (validate _ _)|]; reflexivity. Qed.
+
+  (* peer IDs (declared last so that no envelope lemma above can depend on them) *)
+  Variable peerid : Type.
+  Variable peer_id : pubkey -> peerid.
+  Definition PeerIdInjective : Prop := forall a b, peer_id a = peer_id b -> a = b.
 End Scheme.
 
 Arguments Envelope {pubkey sigt} _ _ _ _.
@@ -306,6 +333,7 @@ Arguments seal {privkey pubkey sigt} pub sign dom ty pl k.
 Arguments validate {pubkey sigt} verify dom e.
 Arguments consume {pubkey sigt} verify w dom.
 Arguments env_short {pubkey sigt} e.
+Arguments altered_one_field {pubkey sigt} e e'.
 Arguments VerifySign {privkey pubkey sigt} pub sign verify.
 Arguments VerifyUnique {privkey pubkey sigt} pub sign verify.
 Arguments SignInjective {privkey sigt} sign.
